@@ -49,6 +49,16 @@ def gen_cases(tier, rng):
         c["cls"] = "td-endpoints"
         c["cost"] = 6 + c["sys"]["Nt"] / 20.0
         cases.append(c)
+    # time-dependent Redfield tensor held as operators vs as a tensor: conversion, then use in other bases than the one of conversion
+    for i in range(6 if tier == "quick" else 40):
+        c = tensors.gen_case(rng, "stR-TD", tier, nmax=3)
+        c["sys"]["N"] = max(c["sys"]["N"], 2 + i % 2)
+        if len(c["sys"]["E"]) < c["sys"]["N"]:
+            c = tensors.gen_case(rng, "stR-TD", "thorough", nmax=3)
+        c["cls"] = "td-forms"
+        c["where"] = ["outside", "inside-protected", "outside"][i % 3]
+        c["cost"] = 8 + c["sys"]["Nt"] / 10.0
+        cases.append(c)
     k = 12 if tier == "quick" else 70
     for i in range(k):
         N = int(rng.integers(1, 5 if tier == "thorough" else 4))
@@ -172,6 +182,58 @@ def run_case(case, ctx):
         nonsec = float(numpy.max(numpy.abs(Te[~pat])))
         ctx.key((cls, case["sys"]["N"], tuple(case["sys"]["E"]), case["method"], case["nref"]))
         ctx.nontrivial(nonsec > 1e-6 * sc and moved > 1e-4)
+        return
+
+    if cls == "td-forms":
+        with ctx.lib("TD Redfield tensor in both forms", mechanism=None):
+            with contextlib.redirect_stdout(io.StringIO()):
+                Bt = tensors.build_case(case)
+                Bo = tensors.build_case(dict(case, label="stR-TD-ops"))
+        Rt, Ro, ham, t = Bt["R"], Bo["R"], Bt["hamR"], Bt["t"]
+        dim = ham.dim
+        det = {"kind": "stR-TD", "N": case["sys"]["N"], "converted": case["where"]}
+        ctx.require("forms", (not getattr(Rt, "as_operators", False)) and bool(getattr(Ro, "as_operators", False)), {"what": "unexpected representation"})
+        Tt = numpy.array(Rt.data)
+        sc = max(float(numpy.max(numpy.abs(Tt))), 1e-300)
+        rho0 = numpy.zeros((dim, dim), dtype=complex)
+        rho0[1:, 1:] = build.random_state(rng, dim - 1, kind="mixed")
+        with ctx.lib("convert_2_tensor of the TD operator form, then other bases", mechanism=None):
+            with contextlib.redirect_stdout(io.StringIO()):
+                hamo = Bo["hamR"]
+                if case["where"] == "outside":
+                    Ro.convert_2_tensor()
+                else:
+                    # converted inside the eigenbasis context of the (protected) Hamiltonian, as the aggregate's builders work
+                    hamo.protect_basis()
+                    with qr.eigenbasis_of(hamo):
+                        Ro.convert_2_tensor()
+                    hamo.unprotect_basis()
+                Tc = numpy.array(Ro.data)
+                with qr.eigenbasis_of(ham):
+                    Tt_e = numpy.array(Rt.data)
+                with qr.eigenbasis_of(hamo):
+                    Tc_e = numpy.array(Ro.data)
+                Tc_back = numpy.array(Ro.data)
+                sao = qm.SelfAdjointOperator(data=tensors.random_sao(rng, dim))
+                with qr.eigenbasis_of(sao):
+                    Tc_r = numpy.array(Ro.data)
+                    Tt_r = numpy.array(Rt.data)
+                e_c = qm.ReducedDensityMatrixPropagator(t, hamo, Ro).propagate(qr.ReducedDensityMatrix(data=rho0.copy()))
+                e_t = qm.ReducedDensityMatrixPropagator(t, ham, Rt).propagate(qr.ReducedDensityMatrix(data=rho0.copy()))
+                with qr.eigenbasis_of(hamo):
+                    e_c2 = qm.ReducedDensityMatrixPropagator(t, hamo, Ro).propagate(qr.ReducedDensityMatrix(data=(numpy.array(qr.ReducedDensityMatrix(data=rho0.copy()).data))))
+                d_c, d_t = numpy.array(e_c.data), numpy.array(e_t.data)
+        tol = 1e-11 * sc * dim * dim
+        ok = Tc.shape == Tt.shape
+        ctx.require("converted==tensor", ok, dict(det, what="shape", got=list(Tc.shape), want=list(Tt.shape)))
+        if ok:
+            ctx.check("converted==tensor", float(numpy.max(numpy.abs(Tc - Tt))), tol, dict(det, what="site basis, all times"))
+            ctx.check("converted==tensor", float(numpy.max(numpy.abs(Tc_e - Tt_e))), tol, dict(det, what="read inside eigenbasis_of(H) after conversion"))
+            ctx.check("converted==tensor", float(numpy.max(numpy.abs(Tc_back - Tt))), tol, dict(det, what="after leaving the context again"))
+            ctx.check("converted==tensor", float(numpy.max(numpy.abs(Tc_r - Tt_r))), tol, dict(det, what="read inside eigenbasis_of(random operator)"))
+            ctx.check("propagate:operators==tensor", float(numpy.max(numpy.abs(d_c - d_t))), 1e-10, dict(det, what="dynamics with the converted tensor vs the tensor-form one"))
+        ctx.key((cls, case["sys"]["N"], tuple(case["sys"]["E"]), case["where"]))
+        ctx.nontrivial(case["sys"]["N"] >= 2 and float(numpy.max(numpy.abs(Tt[-1]))) > 0)
         return
 
     if cls == "td-endpoints":
